@@ -59,7 +59,10 @@ func NewSlidingWindowMetric(sampleCount, intervalInMs uint32, real *BucketLeapAr
 func (m *SlidingWindowMetric) getBucketStartRange(timeMs uint64) (start, end uint64) {
 	curBucketStartTime := calculateStartTime(timeMs, m.real.BucketLengthInMs())
 	end = curBucketStartTime
-	start = end - uint64(m.intervalInMs) + uint64(m.real.BucketLengthInMs())
+	// Avoid unsigned underflow for timestamps smaller than the interval.
+	if end+uint64(m.real.BucketLengthInMs()) >= uint64(m.intervalInMs) {
+		start = end + uint64(m.real.BucketLengthInMs()) - uint64(m.intervalInMs)
+	}
 	return
 }
 
